@@ -12,3 +12,11 @@ from .net import *
 from .pub import *
 
 from ._generated import *
+
+# The star-imports above also copy the submodule attributes of the imported packages (for example the
+# `packet` module of eolib.protocol.net, or the generated twins of this package's subpackages), which would
+# shadow this package's own submodules. Bind the real submodules last.
+import importlib as _importlib
+
+for _name in ('map', 'net', 'pub'):
+    globals()[_name] = _importlib.import_module('.' + _name, __name__)
